@@ -402,3 +402,24 @@ func constArray(s *Sort, v *Term) *Term {
 	t.Name = "(as const " + s.String() + ")"
 	return intern(t)
 }
+
+
+// initial returns the entry-state array for a heap key that has not been written yet.
+func (h *Heap) initial(key string) *Term {
+	switch {
+	case strings.HasPrefix(key, "H:"):
+		n := h.clone()
+		n.arrays = map[string]*Term{}
+		_, a := n.cellArr(sortFromKey(key[2:]))
+		return a
+	case strings.HasPrefix(key, "M:"):
+		parts := strings.SplitN(key[2:], "#", 2)
+		k := 0
+		fmt.Sscanf(parts[1], "%d", &k)
+		n := h.clone()
+		n.arrays = map[string]*Term{}
+		_, a := n.elemArr(sortFromKey(parts[0]), k)
+		return a
+	}
+	return nil
+}
